@@ -417,3 +417,8 @@ def run(rep, proj, tier):
     check_convolution(rep, proj)
     check_vectors(rep, proj)
     check_points(rep, proj, tier)
+    # an entry can only be THE integral of its coefficient function if that function is one function: parts that change from one evaluation
+    # to the next (state kept in a captured container) make every quadrature integrate something else at each call
+    from .. import pcmodel as P_
+
+    P_.check_pure(rep, proj, "C01.pure", floor=150)
